@@ -4,6 +4,7 @@ import (
 	"math/rand"
 	"sort"
 	"strings"
+	"sync/atomic"
 
 	"github.com/avos-io/goat/gen/goatorepo"
 	"google.golang.org/grpc/metadata"
@@ -181,4 +182,13 @@ func genPayload(rng *rand.Rand, max int) []byte {
 	b := make([]byte, n)
 	rng.Read(b)
 	return b
+}
+
+// badBinValue returns successive values that base64.URLEncoding (padded, strict) cannot decode: wrong
+// characters, every impossible length class (1, 2, 3 mod 4 without padding), misplaced padding.
+var badBinCounter atomic.Uint64
+
+func badBinValue() string {
+	vals := []string{"!!", "A", "AAAAA", "=", "AA=A", "*", "AAA", "AAAAAAAAA", "A===", "AAAAAA"}
+	return vals[int(badBinCounter.Add(1))%len(vals)]
 }
